@@ -150,35 +150,47 @@ impl OpPattern {
     /// otherwise the unfused operator broadcasts its output to the constant's
     /// rank (eg. `[3] + [1, 1] => [1, 3]`).
     fn constants_preserve_rank(&self, node: &OperatorNode, graph: &Graph) -> bool {
-        let has_const_pattern = self
-            .inputs
-            .iter()
-            .any(|pat| matches!(&*pat.kind, PatternKind::Constant(_)));
+        // When matching a chain of associative operators, constant patterns
+        // may have been matched against inputs of the inner operators of the
+        // chain rather than inputs of `node`.
+        let op = node.operator();
+        let is_chain = op.is_associative() && op.is_commutative() && self.inputs.len() == 2;
+        let has_const_pattern = if is_chain {
+            self.flatten_associative_chain()
+                .iter()
+                .any(|pat| matches!(&*pat.kind, PatternKind::Constant(_)))
+        } else {
+            self.inputs
+                .iter()
+                .any(|pat| matches!(&*pat.kind, PatternKind::Constant(_)))
+        };
         if !has_const_pattern {
             return true;
         }
 
-        let rank = |id: &Option<NodeId>| match id.and_then(|id| graph.get_node(id)) {
-            Some(Node::Constant(const_node)) => Some(const_node.ndim()),
-            Some(Node::Value(value)) => value.ndim(),
-            _ => None,
-        };
+        if !is_chain {
+            return operator_constants_preserve_rank(node, graph);
+        }
 
-        node.input_ids().iter().enumerate().all(|(i, id)| {
-            let const_rank = match id.and_then(|id| graph.get_node(id)) {
-                Some(Node::Constant(const_node)) if const_node.item().is_some() => {
-                    const_node.ndim()
+        // Check `node` and all inner operators of the chain.
+        let mut chain_ops: SmallVec<[&OperatorNode; SMALL_VEC_CAP]> = SmallVec::new();
+        chain_ops.push(node);
+        let mut next = 0;
+        while next < chain_ops.len() {
+            let chain_op = chain_ops[next];
+            next += 1;
+            for input_id in chain_op.input_ids().iter().flatten() {
+                if let Some((_, input_op)) = graph.get_source_node(*input_id)
+                    && input_op.operator().name() == self.name
+                    && let [Some(_), Some(_)] = input_op.input_ids()
+                {
+                    chain_ops.push(input_op);
                 }
-                _ => return true,
-            };
-            if const_rank == 0 {
-                return true;
             }
-            node.input_ids()
-                .iter()
-                .enumerate()
-                .any(|(j, other)| j != i && rank(other).is_some_and(|r| r >= const_rank))
-        })
+        }
+        chain_ops
+            .iter()
+            .all(|chain_op| operator_constants_preserve_rank(chain_op, graph))
     }
 
     fn matches_inputs(&self, node: &OperatorNode, graph: &Graph, symbols: &mut SymbolMap) -> bool {
@@ -251,6 +263,30 @@ impl OpPattern {
         }
         patterns
     }
+}
+
+/// Check that no single-element constant input of `node` has more dimensions
+/// than all other inputs of `node` are known to have.
+fn operator_constants_preserve_rank(node: &OperatorNode, graph: &Graph) -> bool {
+    let rank = |id: &Option<NodeId>| match id.and_then(|id| graph.get_node(id)) {
+        Some(Node::Constant(const_node)) => Some(const_node.ndim()),
+        Some(Node::Value(value)) => value.ndim(),
+        _ => None,
+    };
+
+    node.input_ids().iter().enumerate().all(|(i, id)| {
+        let const_rank = match id.and_then(|id| graph.get_node(id)) {
+            Some(Node::Constant(const_node)) if const_node.item().is_some() => const_node.ndim(),
+            _ => return true,
+        };
+        if const_rank == 0 {
+            return true;
+        }
+        node.input_ids()
+            .iter()
+            .enumerate()
+            .any(|(j, other)| j != i && rank(other).is_some_and(|r| r >= const_rank))
+    })
 }
 
 fn flatten_associative_pattern_impl<'a>(
